@@ -46,6 +46,27 @@ P.update({
              note="snapshots are deep copies through reflection", ref="4 C16"),
 })
 
+P.update({
+ "C12": dict(engine="table-explorer", technique="exhaustive enumeration of discriminator tables: every registered key in three modes, complete unregistered key spaces (all u16, all <=2-byte strings, 3-byte alphabet / all 2^24, all 2^32 in thorough)",
+             text="18 tables x 226 keys through the factory, a full Decode and nil-body Encode must give exactly the pinned body type and reference bytes; unregistered keys (complete small spaces; structured alphabet for 32-bit tables in quick, all 2^32 through the factory in thorough) must give an error, no panic and no body.",
+             note="pinned key->type map in schema/pinned; full-Decode sweeps of unregistered keys use the 17-byte alphabet", ref="4 C12"),
+ "C13": dict(engine="primitive-sweep", technique="exhaustive primitive sweep: widths x pad bytes x sides x all strings <=2 bytes (+ alphabet strings), scalar/default/list variants",
+             text="Widths {0..4} x pad bytes (8 in quick incl. 0x80,0xC2,0xFF; all 256 in thorough) x both sides x all 65,793 strings of <=2 bytes and longer alphabet strings, widths 8 and 120 over structured members: written bytes equal the cut/pad spec, read strips only the pad byte from the pad side and consumes exactly N bytes.",
+             note="specification of pad/cut/strip is refmodel.FixText/StripText", ref="4 C13"),
+ "C14": dict(engine="sumx", technique="checksum-automaton exploration: all short inputs, all (state,byte) transitions via witnesses, long uniform/ramp families for hidden-state overflow",
+             text="4 services x all strings <=2 (quick) / <=3 (thorough) bytes, CRC16 and byte-sum automata, long uniform runs up to 32 MiB around the 2^31 accumulator boundary, ramps/alternations at 2^k+-1; each on a partially consumed buffer, checking value vs bitwise reference, range, purity and repeatability.",
+             note="bitwise reference implementations self-checked against published check values; CRC32 beyond 3 bytes covered by families only", ref="4 C14"),
+ "C15": dict(engine="receiver-bfs", technique="exhaustive receiver-history exploration: all decode-event sequences to depth 2 into one receiver from clean and hand-dirtied starts, differential against a fresh receiver",
+             text="Per type: valid wires (structural deviations, every key) and failing truncations as events; every sequence of <=2 events into one receiver from 2-4 starting states, then every valid wire into it and into a fresh receiver; results must be equal.",
+             note="no hand-written expected value: differential oracle dirty vs fresh", ref="4 C15"),
+ "C17": dict(engine="valenum", technique="bounded-exhaustive value enumeration over unrestricted alphabets incl. nil parts and unregistered keys, panic monitor",
+             text="Per type: zero value, constructor result, V1 (V2 thorough) over unrestricted alphabets (over-long text, 65,536-element lists, nil nested pointers, nil bodies with every registered key) and nil bodies with the unregistered-key alphabet; Encode must return without panicking.",
+             note="nil list elements and typed-nil interface values are excluded as the property says", ref="4 C17"),
+ "C18": dict(engine="primitive-sweep+valenum", technique="exhaustive sweep of lengths around every 8/16-bit prefix limit for every prefixed writer; message-level over-long members",
+             text="Every prefixed writer instantiation with a u8 prefix x all lengths 0..600 and with a u16 prefix x lengths around 65,535/131,071 (BE and LE, counts and per-element lengths); every message type x V1 with over-long members: too long => error, fits => success, reference bytes and read-back.",
+             note="u32/u64 prefixes would need >= 4 GiB values: not attempted", ref="4 C18"),
+})
+
 NOT_YET = {
 }
 
